@@ -7,11 +7,13 @@ GET / forced refresh (overwrite) / PURGE over a few URLs, each stored version co
 Oracle (one-directional, as the statement): every URL whose latest version was confirmed on disk and
 was neither purged nor released answers only-if-cached with 200 and exactly those bytes.
 """
+import os
 import time
 
 from hypothesis import strategies as st
 
 from vlib.e2e import diskstore as ds
+from vlib.e2e import rockdb
 from vlib.e2e_runner import Result
 
 STORES = ["rock", "ufs", "aufs", "diskd"]
@@ -58,6 +60,22 @@ def execute(env, sc):
     finally:
         env.discard(sq)
         ds.trace("C17 %s ops=%d %.1fs %s" % (store, len(sc["ops"]), time.time() - t0, r.inconclusive or ""))
+
+
+def _rock_class(sq, store, url):
+    """Narrows the signature of a lost rock entry by what the db file holds under that URL's key:
+    a complete slot chain plus further same-key slots (left behind by an earlier version of the URL)."""
+    if store != "rock":
+        return ""
+    try:
+        c = rockdb.chains_of(rockdb.RockDb(os.path.join(sq.cache_sub, "rock")), url)
+    except Exception:
+        return ""
+    if c["complete"] and c["extra"]:
+        return ":stale-same-key-slots-in-db"
+    if not c["complete"]:
+        return ":no-complete-chain-in-db"
+    return ""
 
 
 def _run(env, sc, sq, r):
@@ -160,7 +178,7 @@ def _run(env, sc, sq, r):
             continue
         want = content.body(u, ver)
         if m.status != 200:
-            r.fail("entry-lost-after-clean-restart:" + store,
+            r.fail("entry-lost-after-clean-restart:" + store + _rock_class(sq, store, env.url(path)),
                    "u%d version %d (%d bytes) was confirmed on disk before shutdown; only-if-cached after restart: %s" % (u, ver, len(want), m.status))
         elif not m.complete or m.body != want:
             other = content.match_version(u, m.body) if m.complete else None
